@@ -76,7 +76,7 @@ package core
 //@     invariant forall k int :: 0 <= k && k < len(bs) ==> bs[k] == old(bs[k])
 
 //@ func conn.releaseTCP
-//@   props C15
+//@   props C03 C15
 //@   requires c.loop != nil && c.loop.ln != nil && c.outboundBuffer != nil
 //@   modifies c.opened, c.buffer, c.localAddr, c.remoteAddr, c.pollAttachment, c.initStep, c.initStatus, c.isSlave, c.connType
 //@   modifies c.inMsgQueue, c.inFragQueue, c.outFragQueue, elastic.RingBuffer.rb, elastic.Buffer.pending, linkedlist.Buffer.bs, linkedlist.Buffer.head, linkedlist.Buffer.tail, linkedlist.Buffer.size, linkedlist.Buffer.bytes
@@ -87,7 +87,7 @@ package core
 // eventloop.closeConn (C15): the close callbacks see the connection with its queues still in place (so that they can
 // resolve what is pending on it); afterwards the connection is closed and its queues are gone.
 //@ func eventloop.closeConn
-//@   props C15
+//@   props C03 C15
 //@   requires connok(el, c)
 //@   assume at call listenServer.OnSClosed#0 :: c.inFragQueue != nil && fwf(c.inFragQueue)
 //@   assert[callback.first@C15] at call listenServer.OnSClosed#0 :: c.opened && c.inFragQueue != nil && c.outFragQueue != nil
